@@ -27,6 +27,9 @@ def gen (maxLen : Nat) : G (List String) := do
   for cfg in ["1 1 0 1", "2 2 0 1", "1 4 0 1", "2 1 1 1"] do
     let cyc : List Call := (List.replicate 25 [Call.start, Call.stop]).flatten
     out := out ++ ["updown " ++ cfg ++ " " ++ callStr cyc, "expect " ++ specLine cyc]
+  -- a Start that cannot bind its port (held by a socket without SO_REUSEPORT)
+  for cfg in ["1 1 8 0", "2 2 0 1", "4 2 100 1"] do
+    out := out ++ ["startbusy " ++ cfg, "expect res ok busy=err later=ok alive=yes stop=ok"]
   for (sk, wk, q, k) in [(1, 1, 1000, 40), (2, 4, 1000, 200), (1, 8, 64, 50), (4, 2, 1000, 300)] do
     out := out ++ ["drain " ++ toString sk ++ " " ++ toString wk ++ " " ++ toString q ++ " " ++ toString k, "expect res ok stop=ok undecoded=0"]
   pure out
